@@ -927,7 +927,9 @@ def rounds_budget(case):
     n = 40
     for r in case["reqs"]:
         for h in r["hops"]:
-            size = 200 + len(h["body"]) * 2
+            size = 260 + len(h["body"]) * 2       # head + body (chunk framing included)
+            # an escaped Location can be long: every character may take three bytes
+            size += 3 * (sum(len(k) + len(v) + 2 for k, v in h.get("locq") or ()) + len(h.get("locextra") or ""))
             n += h["delay"] + (size // h["dribble"] + 2 if h["dribble"] else 1) + 8
             if h["target"] in ("other", "downgrade"):
                 n += 12 if case["tls"] else 4
